@@ -909,8 +909,9 @@ pub fn run_c17(ctx: &Ctx) -> Outcome {
     finish(ctx, &mut out, res, "automaton states matched", "table cells compared");
     out.cov("traces_validated_against_impl", json!(iso));
     out.cov("explanation", json!("states = automaton states put in bijection with the reference LALR(1) automaton, transitions = ACTION/GOTO cells compared under the bijection; tables are read from the text the real generate emitted; rule identity comes from the constructor named in each emitted reduce function"));
-    if not_understood > 0 {
+    if not_understood > 0 && out.findings.is_empty() {
         // being unable to read some texts is no evidence against the property: a machinery exit, never a verdict
+        // (violations found in the texts that could be read are reported as such)
         machinery_error(format!("C17: {not_understood} emitted texts could not be read by the extractor while {iso} could"));
     }
     out
